@@ -88,7 +88,7 @@ func shapeText(fset *token.FileSet, n ast.Node, pkgs map[string]bool) string {
 		return e
 	}
 	if e, ok := n.(ast.Expr); ok {
-		return exprText(fset, rec(e))
+		return strings.ReplaceAll(exprText(fset, rec(e)), "_. ", "_.")
 	}
 	return exprText(fset, n)
 }
@@ -368,7 +368,8 @@ func runInventoryCmd(args []string) {
 							}
 						case *ast.SelectorExpr:
 							if panicSelectors[f.Sel.Name] || strings.HasPrefix(f.Sel.Name, "Must") {
-								add(&panicSites, "call:"+f.Sel.Name, x)
+								// identified by the callee (receiver erased), not by the shape of the arguments
+								panicSites = append(panicSites, fmt.Sprintf("%s|%s|call:%s|%s", rel, fn, f.Sel.Name, shapeText(fset, x.Fun, pkgs)))
 							}
 							if id, ok := f.X.(*ast.Ident); ok {
 								if id.Name == "time" && (f.Sel.Name == "Now" || f.Sel.Name == "Since") {
